@@ -163,6 +163,12 @@ pub fn child_main<F: FnMut(Tier, usize, &mut JsonAcc) + Send + 'static>(
             return 2;
         }
     };
+    // keep freed memory in the process: without this glibc trims the arena of
+    // the worker thread with madvise() after almost every execution
+    unsafe {
+        libc::mallopt(libc::M_TRIM_THRESHOLD, 1 << 30);
+        libc::mallopt(libc::M_MMAP_THRESHOLD, 16 << 20);
+    }
     // the code under test runs on a thread with the stack size of a tokio
     // worker thread (2 MiB), as in the server
     let h = std::thread::Builder::new()
